@@ -14,7 +14,7 @@ static int _input_ref_init(void *ptr, const void *src)
 	
 	if ((from = src)
 	    && (meta = *from)
-	    && ((ret = meta->_vptr->addref(meta)) < 0)) {
+	    && !(ret = meta->_vptr->addref(meta))) {
 		return MPT_ERROR(BadOperation);
 	}
 	*((MPT_INTERFACE(metatype) **) ptr) = meta;
